@@ -4,6 +4,15 @@ Driver for Model/ModelEval.lean at α = ℚ:   lake env lean --run PgVerif/Drv/M
   hc <Model> [params]                 -> ok n/d | none        Henry constant
   lin a b n                           -> ok [grid]            numpy.linspace
   sel [vs] f <lo|~|-> <hi|~|->        -> ok [values]          conversion by the factor f, strict limits (`- -` = limits not given)
+model isotherm in a stored STATE (`<K|C> t` = temperature unit and stored number; `Ttab p0` = the kelvin temperature at which the
+adsorbate was tabulated and its saturation pressure in Pa there: at any other temperature nothing is known -> `none`;
+a representation = `<absolute|relative|relative%> <Pa per unit | 1>`):
+  kel <K|C> t                                                      -> ok T          kelvin temperature of the state
+  cvp <K|C> t Ttab p0 smode sunit rmode runit <in|out> [xs]        -> ok [values]   requested -> stored (`in`) / stored -> requested (`out`)
+  lat <K|C> t Ttab p0 smode sunit rmode runit fL Model [params] [xs] -> ok [values] loading_at around the exact rational model, fL = loading factor stored -> requested at Ttab
+  pat <K|C> t Ttab p0 smode sunit rmode runit fL Model [params] [ls] -> ok [values] pressure_at around the exact rational inverse (Henry, Langmuir)
+  wps <K|C> t Ttab p0 smode sunit rmode runit a b n lo hi            -> ok [values] pressure(points, …) of a loading-explicit model, strict limits
+  wls <K|C> t Ttab p0 smode sunit rmode runit fL Model [params] a b n lo hi -> ok [values] loading(points, …) around the exact rational model
 -/
 import PgVerif.Model.ModelEval
 import PgVerif.Drv.Proto
@@ -17,8 +26,71 @@ def parseLimits (lo hi : String) : Option (Option (Option Rat × Option Rat)) :=
     | some l, some h => some (some (l, h))
     | _, _ => none
 
+def parseMode (m : String) : Option PMode :=
+  if m == "absolute" then some .absolute else if m == "relative" then some .relative
+  else if m == "relative%" then some .percent else none
+
+def parseCelsius (u : String) : Option Bool :=
+  if u == "K" then some false else if u == "C" then some true else none
+
+/-- the state and the adsorbate table of one request: `none` when the line cannot be parsed, `some none` when the kelvin
+temperature of the state is not the tabulated one -/
+def parseState (u t tt p0 sm su rm ru : String) : Option (Option (MState ℚ × (ℚ → ℚ) × PRep ℚ)) :=
+  match parseCelsius u, parseRat t, parseRat tt, parseRat p0, parseMode sm, parseRat su, parseMode rm, parseRat ru with
+  | some c, some t, some tt, some p0, some sm, some su, some rm, some ru =>
+    let s : MState ℚ := ⟨c, t, ⟨sm, su⟩, fun _ => 1⟩
+    if s.kelvin = tt then some (some (s, (fun T => if T = tt then p0 else 0), ⟨rm, ru⟩)) else some none
+  | _, _, _, _, _, _, _, _ => none
+
 def step (ts : List String) : String :=
   match ts with
+  | ["kel", u, t] =>
+    match parseCelsius u, parseRat t with
+    | some c, some t => "ok " ++ showRat (kelvinOf c t)
+    | _, _ => "bad-op"
+  | ["cvp", u, t, tt, p0, sm, su, rm, ru, dir, xs] =>
+    match parseState u t tt p0 sm su rm ru, ratList xs with
+    | some none, some _ => "none"
+    | some (some (s, psat, rq)), some xs =>
+      if dir == "in" then "ok " ++ showRatList (xs.map (convP (psat s.kelvin) rq s.prep))
+      else if dir == "out" then "ok " ++ showRatList (xs.map (convP (psat s.kelvin) s.prep rq))
+      else "bad-op"
+    | _, _ => "bad-op"
+  | ["wps", u, t, tt, p0, sm, su, rm, ru, a, b, n, lo, hi] =>
+    match parseState u t tt p0 sm su rm ru, parseRat a, parseRat b, n.toNat?, parseLimits lo hi with
+    | some none, some _, some _, some _, some _ => "none"
+    | some (some (s, psat, rq)), some a, some b, some n, some lim => "ok " ++ showRatList (wholePressureS psat s a b n rq lim)
+    | _, _, _, _, _ => "bad-op"
+  | ["wls", u, t, tt, p0, sm, su, rm, ru, fl, m, ps, a, b, n, lo, hi] =>
+    match parseState u t tt p0 sm su rm ru, parseRat fl, ratList ps, parseRat a, parseRat b, n.toNat?, parseLimits lo hi with
+    | some none, some _, some _, some _, some _, some _, some _ => "none"
+    | some (some (s, _, _)), some fl, some ps, some a, some b, some n, some lim =>
+      let s' : MState ℚ := { s with lscale := fun _ => fl }
+      if ((linspace a b n).all fun p => (evalModel (α := ℚ) m "loading" ps p).isSome) then
+        "ok " ++ showRatList (wholeLoadingS s' (fun p => (evalModel (α := ℚ) m "loading" ps p).getD 0) a b n (fun _ => 1) lim)
+      else "none"
+    | _, _, _, _, _, _, _ => "bad-op"
+  | [op, u, t, tt, p0, sm, su, rm, ru, fl, m, ps, xs] =>
+    match parseState u t tt p0 sm su rm ru, parseRat fl, ratList ps, ratList xs with
+    | some none, some _, some _, some _ => "none"
+    | some (some (s, psat, rq)), some fl, some ps, some xs =>
+      -- the loading factor stored -> requested at the tabulated temperature enters as `lscale T = fL`, `rqL T = 1`
+      let s' : MState ℚ := { s with lscale := fun _ => fl }
+      let fn := if op == "lat" then some "loading" else if op == "pat" then some "pressure" else none
+      match fn with
+      | none => "bad-op"
+      | some fn =>
+        let rs := xs.map fun x =>
+          if op == "lat" then
+            (evalModel (α := ℚ) m fn ps (convP (psat s.kelvin) rq s.prep x)).map fun _ =>
+              loadingAtS psat s' (fun p => (evalModel (α := ℚ) m fn ps p).getD 0) rq (fun _ => 1) x
+          else
+            (evalModel (α := ℚ) m fn ps (x * (1 / fl))).map fun _ =>
+              pressureAtS psat s' (fun l => (evalModel (α := ℚ) m fn ps l).getD 0) (fun _ => 1) rq x
+        match rs.mapM id with
+        | some rs => "ok " ++ showRatList rs
+        | none => "none"
+    | _, _, _, _ => "bad-op"
   | ["ev", m, f, ps, x] =>
     match ratList ps, parseRat x with
     | some ps, some x =>
